@@ -364,7 +364,7 @@ fn rollback_then_late_check(restrict_to_f3: bool, exclude_f3: bool) {
 #[kani::proof]
 #[kani::unwind(5)]
 fn c04_rollback_does_not_forget_older_writers() {
-	rollback_then_late_check(false, cfg!(verif_kf_f3));
+	rollback_then_late_check(false, crate::verif_cfg::KF_F3);
 }
 
 /// Witness of known finding F3 (run only while F3 is listed in KNOWN_FINDINGS.jsonl).
